@@ -220,13 +220,15 @@ package percolator
 //@   modifies nothing
 //@ ghost var defaultReads Int
 //@ ghost var lastDefaultReadTs uint64
+//@ ghost var lastDefaultReadOK bool
 //@ func (*Reader).GetValue
 //@   property C17
 //@   requires r != nil
 //@   ensures [value-comes-from-the-selected-data-record] result1 == nil ==> readSelections == old(readSelections) + 1 && lastSelectedFound && lastSelectedKind != 1 && lastSelectedKind != 2 && lastSelectedKind != 3 && defaultReads == old(defaultReads) + 1 && lastDefaultReadTs == lastSelectedStartTs
 //@   ensures [selected-delete-or-nothing-is-not-found] readSelections == old(readSelections) + 1 && (!lastSelectedFound || lastSelectedKind == 1) ==> result1 != nil && defaultReads == old(defaultReads)
 //@   ensures [one-selection] readSelections == old(readSelections) + 1
-//@   modifies ghost(readSelections), ghost(lastSelectedFound), ghost(lastSelectedKind), ghost(lastSelectedStartTs), ghost(defaultReads), ghost(lastDefaultReadTs)
+//@   ensures [a-stored-put-is-found-whatever-its-length] defaultReads == old(defaultReads) + 1 && lastDefaultReadOK ==> result1 == nil
+//@   modifies ghost(readSelections), ghost(lastSelectedFound), ghost(lastSelectedKind), ghost(lastSelectedStartTs), ghost(defaultReads), ghost(lastDefaultReadTs), ghost(lastDefaultReadOK)
 
 // C18 ResolveLock: only the locks of the transaction being resolved are committed or
 // rolled back - a key locked by ANOTHER transaction is skipped (its outcome is not decided
